@@ -20,8 +20,9 @@ ID = "C14"
 RULE = ("product explorer: (array of a fixed integer-valued family) x (mode n) is one batch case; inside, every "
         "holder of the SAME array (tensor F/C buffer and int64 data, sptensor in 2-4 stored orders and with int64 values, ktensor, ttensor with dense and "
         "sparse core; Kruskal/Tucker members also natively, their factor columns raw integer / unit-norm correlated / orthonormal / "
-        "mixed per mode - the re-scaled members are real-valued, so integer-dtype holders are left out for them) x every r in 1..size(n) x flipsign in {T,F} is one real "
-        "nvecs call on a fresh object.  Verdicts are asserted when the reference spectrum has lambda_1 > 0 and a gap "
+        "mixed per mode - the re-scaled members are real-valued, so integer-dtype holders are left out for them) x every r in 1..size(n) x flipsign in {T,F} x "
+        "argument form (the integers n and r handed over as Python ints or as numpy integer scalars, as they come out of np.arange / "
+        "np.argmax / an index array) is one real nvecs call on a fresh object.  Verdicts are asserted when the reference spectrum has lambda_1 > 0 and a gap "
         "lambda_r - lambda_{r+1} >= 1e-6 lambda_1 (or r = size); other calls are run but counted inadmissible.  "
         "Non-trivial: admissible, and the leading subspace is proper (r < size) or the spectrum is not flat.")
 ASSUMPTIONS = ["reference unfolding/Gram in mc/refmodel.py (loops) and numpy.linalg.eigh are correct",
@@ -38,13 +39,15 @@ BOUNDS = {
              "(generic, 2 zero patterns, exact rank 1/2, rank 2 + noise, counts with an empty slice, diagonal Gram "
              "ascending/mixed, flat Gram, zero, 3 Kruskal-native + rank 2 with unit-norm / orthonormal factor columns, Tucker-native "
              "dense / sparse core x factor columns {raw, unit-norm, orthonormal, mixed per mode}); all modes; all r; both flipsign; "
+             "(n, r) as (int, int) and as (numpy.int64, numpy.int64); "
              "holders: tensor (float64 and int64 data), sptensor x2 orders (+ int64 values), ktensor, ttensor dense core / sparse core / sparse core with "
              "scipy.sparse factors (+ native)",
     "thorough": "all shapes of order 2-3 with sizes 2..6 and <= 72 cells, order 4 with sizes 2..3 and <= 36 cells, "
                 "1-way sizes 2..6 and 9 shapes with singleton modes; 36-60 members per shape (more seeds, rank 3 + noise, "
                 "single-entry, descending diagonal Gram, 5 Kruskal-native + 4 ranks x {unit-norm, orthonormal} columns, up to "
                 "4 Tucker core shapes x dense/sparse core x 4 factor-column structures); tensor also from a C-ordered "
-                "buffer, sptensor in 4 stored orders; everything else as quick",
+                "buffer, sptensor in 4 stored orders; on the 21 shapes of the quick list (n, r) additionally as (numpy.int32, "
+                "numpy.int32), (numpy.int64, int) and (int, numpy.int64); everything else as quick",
 }
 CHUNK = 4
 
@@ -53,6 +56,25 @@ TOL_ORTH = 1e-8
 TOL_EIG = 1e-8    # * lambda_1
 TOL_PROJ = 1e-7
 TOL_TIE = 1e-9    # ties among the largest-magnitude entries of a column
+
+# argument forms "<type of n>/<type of r>": how the mode and the count are handed to nvecs.  The answer must not depend on
+# whether an integer is a Python int or a numpy integer scalar (np.arange, np.argmax, entries of index arrays ...).
+ARG_TYPES = {"int": int, "int64": np.int64, "int32": np.int32}
+QUICK_ARGFORMS = ("int/int", "int64/int64")
+EXTRA_ARGFORMS = ("int32/int32", "int64/int", "int/int64")   # thorough tier, on the shapes of the quick list
+
+
+def argforms(tier, shape=None):
+    """Argument forms of a tier (shape None: every form that occurs in the tier)."""
+    if tier == "thorough" and (shape is None or tuple(shape) in QUICK_SHAPES):
+        return QUICK_ARGFORMS + EXTRA_ARGFORMS
+    return QUICK_ARGFORMS
+
+
+def arg_values(argf, n, r):
+    tn, tr = argf.split("/")
+    return ARG_TYPES[tn](n), ARG_TYPES[tr](r)
+
 
 QUICK_SHAPES = [(4,), (6,), (2, 2), (1, 3), (3, 2), (3, 4), (4, 3), (5, 2), (3, 5), (4, 4), (6, 3), (2, 6), (2, 3, 4),
                 (4, 3, 2), (3, 3, 3), (2, 6, 2), (5, 2, 3), (3, 1, 4), (2, 1, 1), (2, 2, 2, 3), (3, 2, 2, 2)]
@@ -399,6 +421,7 @@ def _run_nvecs(case, ctx):
         names = [case["holder"]]
     rs = [case["r"]] if "r" in case else list(range(1, size + 1))
     flips = [case["flip"]] if "flip" in case else [True, False]
+    argfs = [case["argf"]] if "argf" in case else list(argforms(tier, shape))
     ctx.count("fam:" + d["fam"])
     nontrivial = False
     for name in names:
@@ -414,9 +437,10 @@ def _run_nvecs(case, ctx):
             if adm and (r < size or (w[0] - w[-1]) >= GAP * lam1):
                 nontrivial = True
             for flip in flips:
-                sub = {"check": "nvecs", "data": d, "n": n, "tier": tier, "holder": name, "r": r, "flip": flip,
-                       "kind": kind, "size": int(size), "path": path, "adm": adm, "ties": ties}
-                _one_call(ctx, sub, A, G, w, Vref, name, kind, n, r, flip, path, adm, strict)
+                for argf in argfs:
+                    sub = {"check": "nvecs", "data": d, "n": n, "tier": tier, "holder": name, "r": r, "flip": flip,
+                           "argf": argf, "kind": kind, "size": int(size), "path": path, "adm": adm, "ties": ties}
+                    _one_call(ctx, sub, A, G, w, Vref, name, kind, n, r, flip, path, adm, strict)
     if nontrivial:
         ctx.nontriv()
 
@@ -479,12 +503,14 @@ def _vseed(d):
 
 def _one_call(ctx, sub, A, G, w, Vref, name, kind, n, r, flip, path, adm, strict):
     d = sub["data"]
+    argf = sub.get("argf", "int/int")
+    n_arg, r_arg = arg_values(argf, n, r)
     size = A.shape[n]
     lam1 = float(w[0])
     op = kind + ".nvecs"
 
     def fail(symptom, detail=""):
-        ctx.fail(op, symptom, f"{name} shape={list(A.shape)} n={n} r={r} flipsign={flip} "
+        ctx.fail(op, symptom, f"{name} shape={list(A.shape)} n={n} r={r} (as {argf}) flipsign={flip} "
                               f"lambda={np.round(w, 6).tolist()} :: {detail}", variant=path, case=sub)
 
     X = build_holder(name, d, A)
@@ -492,7 +518,7 @@ def _one_call(ctx, sub, A, G, w, Vref, name, kind, n, r, flip, path, adm, strict
     ctx.tick()
     try:
         with FixedArpackStart(_vseed(d) + 3 * n + 7 * r, ctx, kind):
-            V = X.nvecs(n, r, flipsign=flip)
+            V = X.nvecs(n_arg, r_arg, flipsign=flip)
     except Exception as e:  # noqa: BLE001
         if kind == "sptensor" and max(A.shape) == 1 and isinstance(e, ValueError):
             # sparse tensors with only singleton modes are rejected on purpose (explicit message, pinned upstream)
@@ -500,7 +526,7 @@ def _one_call(ctx, sub, A, G, w, Vref, name, kind, n, r, flip, path, adm, strict
             ctx.count("rejected_all_singleton_sptensor")
             return
         if adm or not _benign(e):
-            ctx.fail(op, exc_symptom(e), f"{name} shape={list(A.shape)} n={n} r={r} flipsign={flip} adm={adm} :: "
+            ctx.fail(op, exc_symptom(e), f"{name} shape={list(A.shape)} n={n} r={r} (as {argf}) flipsign={flip} adm={adm} :: "
                      + short_tb(e), variant=path, case=sub)
         else:
             ctx.inadm()
@@ -519,6 +545,7 @@ def _one_call(ctx, sub, A, G, w, Vref, name, kind, n, r, flip, path, adm, strict
         ctx.inadm()
         return
     ctx.flag(f"adm:{path}:{kind}")
+    ctx.flag(f"adm:args:{argf}:{kind}")
     # --- real columns
     if np.iscomplexobj(V):
         fail("wrong_dtype", f"dtype {V.dtype}, max |imag| = {float(np.max(np.abs(V.imag))):.3g}")
@@ -598,10 +625,13 @@ def finalize(tier, seed, totals):
             missing.append(("dense", "no call with r >= size-1 returned"))
         if not any(f"solver:{nm}:{kind}" in totals.flags for nm in ("eigsh", "eigs")):
             missing.append(("iterative", "the ARPACK solver was never entered"))
+        for af in argforms(tier):
+            if f"adm:args:{af}:{kind}" not in totals.flags:
+                missing.append(("args", f"no admissible call with (n, r) given as {af} was asserted"))
         for path, why in missing:
             totals.failures.append({"check": "nvecs", "op": kind + ".nvecs", "variant": path,
                                     "symptom": "vacuous", "case": {"check": "vacuity", "kind": kind, "path": path},
-                                    "detail": why + " for this representation: the bounds no longer cover both paths"})
+                                    "detail": why + " for this representation: the bounds no longer cover this part of the scope"})
 
 
 def _run_vacuity(case, ctx):
